@@ -869,3 +869,149 @@ pub mod udp {
         pipe.exchange().await
     }
 }
+
+/// `Http1Codec` over an arbitrary stream: the request it recognises, the upload side and the
+/// respond/download side of the resulting stream
+pub mod http1 {
+    use crate::http1_codec::Http1Codec;
+    use crate::http_codec::{HttpCodec, PendingRespond, RespondedStreamSink};
+    use crate::settings::Settings;
+    use crate::{log_utils, pipe};
+    use bytes::Bytes;
+    use std::sync::Arc;
+    use tokio::io::{AsyncRead, AsyncWrite};
+
+    pub struct Request {
+        pub method: String,
+        pub uri: String,
+        pub minor_version: u8,
+        pub headers: Vec<(String, Vec<u8>)>,
+    }
+
+    pub struct Upload(Box<dyn pipe::Source>);
+    pub struct Respond(Box<dyn PendingRespond>);
+    pub struct Download(Box<dyn pipe::Sink>);
+
+    pub enum Listened {
+        Stream(Request, Upload, Respond),
+        Closed,
+        Failed(String),
+    }
+
+    pub struct Codec<IO>(Http1Codec<super::io::FixedPeerIo<IO>>);
+
+    pub fn codec<IO>(settings: Arc<Settings>, io: IO) -> Codec<IO>
+    where
+        IO: AsyncRead + AsyncWrite + Send + Unpin,
+    {
+        Codec(Http1Codec::new(
+            settings,
+            super::io::FixedPeerIo {
+                io,
+                peer: "198.51.100.7:40000".parse().unwrap(),
+            },
+            log_utils::IdChain::empty(),
+        ))
+    }
+
+    impl<IO: AsyncRead + AsyncWrite + Send + Unpin> Codec<IO> {
+        /// `HttpCodec::listen`
+        pub async fn listen(&mut self) -> Listened {
+            match self.0.listen().await {
+                Ok(None) => Listened::Closed,
+                Err(e) => Listened::Failed(e.to_string()),
+                Ok(Some(stream)) => {
+                    let r = stream.request().request();
+                    let request = Request {
+                        method: r.method.as_str().to_string(),
+                        uri: r.uri.to_string(),
+                        minor_version: if r.version == http::Version::HTTP_10 { 0 } else { 1 },
+                        headers: r
+                            .headers
+                            .iter()
+                            .map(|(n, v)| (n.as_str().to_string(), v.as_bytes().to_vec()))
+                            .collect(),
+                    };
+                    let (pending_request, pending_respond) = stream.split();
+                    Listened::Stream(request, Upload(pending_request.finalize()), Respond(pending_respond))
+                }
+            }
+        }
+    }
+
+    impl Upload {
+        /// `pipe::Source::read`: `None` = end of stream
+        pub async fn read(&mut self) -> std::io::Result<Option<Bytes>> {
+            Ok(match self.0.read().await? {
+                pipe::Data::Chunk(b) => Some(b),
+                pipe::Data::Eof => None,
+            })
+        }
+    }
+
+    impl Respond {
+        /// `PendingRespond::send_response` with the given status and no extra headers
+        pub fn send_response(self, status: u16, eof: bool) -> std::io::Result<Download> {
+            let response = http::Response::builder()
+                .status(status)
+                .body(())
+                .unwrap()
+                .into_parts()
+                .0;
+            let sink: Box<dyn RespondedStreamSink> = self.0.send_response(response, eof)?;
+            Ok(Download(sink.into_pipe_sink()))
+        }
+    }
+
+    impl Download {
+        pub fn write(&mut self, data: Bytes) -> std::io::Result<Bytes> {
+            self.0.write(data)
+        }
+        pub fn eof(&mut self) -> std::io::Result<()> {
+            self.0.eof()
+        }
+        pub async fn wait_writable(&mut self) -> std::io::Result<()> {
+            self.0.wait_writable().await
+        }
+    }
+}
+
+/// What the endpoint does with a connection once the TLS layer has produced a stream, the
+/// selected protocol and the SNI: the channel dispatch of `Core::on_new_tls_connection`
+pub mod session {
+    use super::ctx::Ctx;
+    use crate::tls_demultiplexer::Protocol;
+    use tokio::io::{AsyncRead, AsyncWrite};
+
+    pub enum Channel {
+        Tunnel,
+        Ping,
+        Speedtest,
+        ReverseProxy,
+    }
+
+    /// Runs until the endpoint is done with the connection
+    pub async fn run<IO>(
+        ctx: &Ctx,
+        channel: Channel,
+        http2: bool,
+        io: IO,
+        peer: std::net::SocketAddr,
+        sni: String,
+        sni_auth_creds: Option<String>,
+    ) -> Result<(), String>
+    where
+        IO: 'static + AsyncRead + AsyncWrite + Unpin + Send,
+    {
+        let protocol = if http2 { Protocol::Http2 } else { Protocol::Http1 };
+        crate::core::verif_hooks_session::run(
+            ctx.0.clone(),
+            channel,
+            protocol,
+            super::io::FixedPeerIo { io, peer },
+            sni,
+            sni_auth_creds,
+        )
+        .await
+    }
+}
